@@ -66,7 +66,7 @@ def safe_impl(stream, case):
     try:
         return stream.impl(case)
     except BaseException as e:  # noqa
-        if isinstance(e, (KeyboardInterrupt, SystemExit, MemoryError)):
+        if core.fatal(e):
             raise
         return 'IMPL-RAISED %s: %s' % (type(e).__name__, str(e)[:200])
 
@@ -208,10 +208,15 @@ def run_check(prop, streams, argv, level_text='', trusted_base=(), assumptions=(
         if hasattr(st, 'prepare'):
             st.prepare(cases)           # e.g. run the expensive implementation side of all cases in parallel
         impl_obs = [safe_impl(st, c) for c in cases]
+        oracle_only = bool(getattr(st, 'oracle_only', False))
         try:
-            lits = [st.emit(c) for c in cases]
-            model_obs = core.run_model('%s-%s' % (prop, st.name), st.imports, st.case_type, st.run_fn, lits,
-                                       prelude=st.prelude, shard=getattr(st, 'shard', 250))
+            if oracle_only:
+                # inputs outside the model's value domain: only the statement's own clause (spec oracle) is checked
+                model_obs = [None] * len(cases)
+            else:
+                lits = [st.emit(c) for c in cases]
+                model_obs = core.run_model('%s-%s' % (prop, st.name), st.imports, st.case_type, st.run_fn, lits,
+                                           prelude=st.prelude, shard=getattr(st, 'shard', 250))
         except core.BuildError as e:
             broken.append('model evaluation (%s): %s %s' % (st.name, e.what, e.log[-1500:]))
             model_obs = [None] * len(cases)
@@ -248,8 +253,11 @@ def run_check(prop, streams, argv, level_text='', trusted_base=(), assumptions=(
             def fails(cands, st=st):
                 ios = [safe_impl(st, x) for x in cands]
                 try:
-                    mos = core.run_model('%s-%s-shrink' % (prop, st.name), st.imports, st.case_type, st.run_fn,
-                                         [st.emit(x) for x in cands], prelude=st.prelude)
+                    if getattr(st, 'oracle_only', False):
+                        mos = [None] * len(cands)
+                    else:
+                        mos = core.run_model('%s-%s-shrink' % (prop, st.name), st.imports, st.case_type, st.run_fn,
+                                             [st.emit(x) for x in cands], prelude=st.prelude)
                 except core.BuildError:
                     mos = [None] * len(cands)
                 out = []
@@ -265,8 +273,9 @@ def run_check(prop, streams, argv, level_text='', trusted_base=(), assumptions=(
             small = shrink_case(st, c, fails) if not replay else c
             io2 = safe_impl(st, small)
             try:
-                mo2 = core.run_model('%s-%s-min' % (prop, st.name), st.imports, st.case_type, st.run_fn,
-                                     [st.emit(small)], prelude=st.prelude)[0]
+                mo2 = None if oracle_only else core.run_model(
+                    '%s-%s-min' % (prop, st.name), st.imports, st.case_type, st.run_fn,
+                    [st.emit(small)], prelude=st.prelude)[0]
             except core.BuildError:
                 mo2 = None
             try:
@@ -294,6 +303,9 @@ def run_check(prop, streams, argv, level_text='', trusted_base=(), assumptions=(
             'evaluations': len(cases), 'distinct_nontrivial': len(nontriv), 'unmodelled_skipped': n_unmod,
             'disagreements': st_dis, 'rule': st.rule, 'observation_distribution': dist,
         }
+        if oracle_only:
+            cov['streams'][st.name]['oracle_only'] = ('no model evaluation: the inputs lie outside the model\'s value '
+                                                      'domain; only the spec oracle (the statement\'s own clause) judges')
         for c, io in list(zip(cases, impl_obs))[:2]:
             samples.append({'stream': st.name, 'case': c, 'observation': io})
 
